@@ -135,8 +135,8 @@ def run(ctx):
         from .common import reachable_bodies
         from ..facts import callee_name
         for k in reachable_bodies(f, [name], stop=lambda n: g.validator_role(n) is not None):
-            for bb, t in f.bodies[k].calls():
-                cn = callee_name(t)
+            from .common import local_callees
+            for cn in sorted(local_callees(f, f.bodies[k])):
                 if g.validator_role(cn) is not None:
                     out.add(cn)
         return out
